@@ -12,7 +12,8 @@ Inductive emsg := MNone | MLocked (id : nat) | MCorrupt | MOther
   | MRemove      (* "remove .../lock: no such file or directory": the stale lock was cleaned by somebody else in between *)
   | MHung.       (* burst member that neither serves nor exits: it passed the lock and is blocked behind the other holder *)
 Inductive exitc := XOk | XErr | XSig.
-Inductive how := HInt | HTerm | HKill | HFinOk | HFinErr.
+Inductive how := HInt | HTerm | HKill | HFinOk | HFinErr
+  | HGiveUp.     (* a web UI shutting down whose request in flight never ends: after 30 s it gives up and exits by itself *)
 
 Inductive kstep :=
 | KCmd (id : nat) (f : family) (pa : path) (x : exitc) (m : emsg)       (* a command run to completion; pa = the path it is built to take *)
@@ -20,9 +21,14 @@ Inductive kstep :=
 | KEnd (id : nat) (f : family) (h : how) (x : exitc)                     (* a running long-lived command is ended *)
 | KKillAt (id : nat) (f : family) (pa : path) (x : exitc) (m : emsg)     (* started and SIGKILLed after a delay; x <> XSig: it had exited by itself *)
 | KBurst (f : family) (ms : list (nat * bool * emsg))                    (* long-lived commands started simultaneously: id, ready, message *)
-| KPlant (id : nat).                                                     (* an empty lock file, as left by a process of an older version killed between creating it and writing its pid *)
+| KPlant (id : nat)                                                      (* an empty lock file, as left by a process of an older version killed between creating it and writing its pid *)
+| KStall (id : nat)                                                      (* the harness puts a request in flight on the serving webui id and keeps it there *)
+| KAsk (id : nat) (f : family) (h : how) (still : bool) (x : exitc).     (* SIGINT / SIGTERM to a webui with a request in flight; still: it lives on, shutting down, until the request ends (then KEnd) *)
 
-Record sobs := mkso { so_step : kstep; so_lock : lk; so_alive : list nat }.   (* lock file and live ready long-lived processes after the step *)
+(* after the step: the lock file, the live ready long-lived processes, the owners of the temporary files lock.<pid>
+   in .git/git-bug, and whether anything else below .git differs from what it was when the step began (looked at
+   only when a holder was alive then; false otherwise) *)
+Record sobs := mkso { so_step : kstep; so_lock : lk; so_alive : list nat; so_tmps : list nat; so_changed : bool }.
 Record case := mkLcase { l_steps : list sobs }.
 
 (* ---- equality tests ---- *)
@@ -45,11 +51,12 @@ Definition lockc_eqb (a b : option lockc) : bool :=
   match a, b with None, None => true | Some LTorn, Some LTorn => true | Some (LPid p), Some (LPid q) => Nat.eqb p q | _, _ => false end.
 Definition st_eqb (a b : st) : bool :=
   lockc_eqb (lockf a) (lockf b) && nats_eqb (dead a) (dead b) && nats_eqb (holders a) (holders b) &&
-  nats_eqb (ready a) (ready b) && nats_eqb (created a) (created b).
+  nats_eqb (ready a) (ready b) && nats_eqb (created a) (created b) && nats_eqb (tmpf a) (tmpf b).
 Fixpoint dedup (l : list st) : list st :=
   match l with [] => [] | x :: t => if existsb (st_eqb x) t then dedup t else x :: dedup t end.
 
-Definition post_ok (la : lk) (al : list nat) (s : st) : bool := lk_match (lockf s) la && set_eqb (holders s) al.
+Definition post_ok (la : lk) (al tm : list nat) (s : st) : bool :=
+  lk_match (lockf s) la && set_eqb (holders s) al && set_eqb (tmpf s) tm.
 
 (* ---- what the model predicts for each kind of step ---- *)
 Definition cmd_result (pa : path) (o : out) : exitc * emsg :=
@@ -69,7 +76,7 @@ Definition end_exit (f : family) (h : how) : exitc :=
   | HKill => XSig
   | HInt | HTerm => match f with FWebui => XOk | _ => XErr end
   | HFinOk => XOk
-  | HFinErr => XErr
+  | HFinErr | HGiveUp => XErr
   end.
 
 (* bursts: every interleaving of the members' read ; (remove) ; write (Lock.badvance) *)
@@ -138,6 +145,12 @@ Definition succ (k : kstep) (s : st) : list st :=
       | (s1, Granted) => [fst (kill1 (fst (step s1 (CreatePinned id))) id)]
       | _ => []
       end
+  | KStall id => if mem id (holders s) then [s] else []
+  | KAsk id f h still x =>   (* the shutdown waits for the request, then closes: until then nothing changes *)
+      if mem id (holders s)
+      then if still then match h with HInt | HTerm => [ask WaitThenClose s id] | _ => [] end
+           else if exitc_eqb (end_exit f h) x then [finish WaitThenClose s id] else []
+      else []
   end.
 
 (* index of the first step after which no model state is consistent with the observations *)
@@ -145,7 +158,7 @@ Fixpoint sim (ss : list st) (steps : list sobs) (i : nat) : option nat :=
   match steps with
   | [] => None
   | o :: t =>
-      let ss' := dedup (filter (post_ok (so_lock o) (so_alive o)) (flat_map (succ (so_step o)) ss)) in
+      let ss' := dedup (filter (post_ok (so_lock o) (so_alive o) (so_tmps o)) (flat_map (succ (so_step o)) ss)) in
       match ss' with [] => Some i | _ => sim ss' t (S i) end
   end.
 Definition divergence (c : case) : option nat := sim [st0] (l_steps c) 0.
@@ -157,12 +170,17 @@ Definition mismatches (cs : list case) : list nat := index_filter agrees 0 cs.
 
 (* ---- the property on the implementation's observations, no model involved ----
    H: live long-lived processes that were granted the cache (as observed after the previous step);
-   L: the lock file after the previous step. A lock naming a process outside H is the lock of a process that is gone
-   (every process of a case is a child of the harness and has been reaped unless it is in H). *)
+   L: the lock file, T: the temporary lock files after the previous step. A lock naming a process outside H is the lock
+   of a process that is gone (every process of a case is a child of the harness and has been reaped unless it is in H).
+   A webui that was asked to stop while it serves a request is alive and at work on its cache until it exits: it stays in H. *)
 Definition refused_by (h : nat) (x : exitc) (m : emsg) : bool := exitc_eqb x XErr && emsg_eqb m (MLocked h).
 Definition opened (m : emsg) : bool := match m with MLocked _ | MCorrupt => false | _ => true end.
 
-Definition step_ok (H : list nat) (L : lk) (o : sobs) : bool :=
+(* "refused ... and changes nothing": no new file next to the lock, nothing else below .git touched *)
+Definition unchanged (T : list nat) (o : sobs) : bool := set_eqb (so_tmps o) T && negb (so_changed o).
+Definition refused_clean (T : list nat) (o : sobs) (h : nat) (x : exitc) (m : emsg) : bool := refused_by h x m && unchanged T o.
+
+Definition step_ok (H : list nat) (L : lk) (T : list nat) (o : sobs) : bool :=
   let la := so_lock o in let al := so_alive o in
   (* mutual exclusion *)
   Nat.leb (length al) 1 &&
@@ -174,17 +192,24 @@ Definition step_ok (H : list nat) (L : lk) (o : sobs) : bool :=
           if Nat.eqb id h
           then negb (mem id al) && match hw with HKill => true | _ => negb (lk_eqb la (LkPid id)) end   (* orderly end releases *)
           else false
+      | KAsk id _ hw still _ =>
+          if Nat.eqb id h
+          then if still then mem h al && lk_eqb la (LkPid h)                (* alive, serving: its lock stays *)
+               else negb (mem id al) && negb (lk_eqb la (LkPid id))         (* it ended at once: as above *)
+          else false
       | k =>
           (* anybody else: the holder keeps running, its lock stays (nothing changes, the lock of a live process is never removed) *)
           mem h al && lk_eqb la (LkPid h) &&
           match k with
           | KCmd _ _ EarlyErr _ _ => true
-          | KCmd _ _ _ x m => refused_by h x m
-          | KHold _ _ rdy x m => negb rdy && refused_by h x m
-          | KKillAt _ _ _ x m => match x with XSig => true | _ => refused_by h x m end
-          | KBurst _ os => forallb (fun r => let '(_, rdy, m) := r in negb rdy && emsg_eqb m (MLocked h)) os
+          | KCmd _ _ _ x m => refused_clean T o h x m
+          | KHold _ _ rdy x m => negb rdy && refused_clean T o h x m
+          | KKillAt _ _ EarlyErr _ _ => true
+          | KKillAt _ _ _ x m => match x with XSig => true | _ => refused_clean T o h x m end
+          | KBurst _ os => forallb (fun r => let '(_, rdy, m) := r in negb rdy && emsg_eqb m (MLocked h)) os && unchanged T o
           | KPlant _ => false
-          | KEnd _ _ _ _ => true
+          | KStall id => Nat.eqb id h
+          | KEnd _ _ _ _ | KAsk _ _ _ _ _ => true
           end
       end
   | [] =>
@@ -198,22 +223,23 @@ Definition step_ok (H : list nat) (L : lk) (o : sobs) : bool :=
       | KBurst _ os => existsb (fun r => snd (fst r)) os &&                   (* somebody gets it *)
                        Nat.leb (length (filter (fun r => snd (fst r) || hung (snd r)) os)) 1   (* and nobody else passes the lock *)
       | KPlant _ => true
+      | KStall _ | KAsk _ _ _ _ _ => false
       end
   | _ => true   (* already reported at the step that produced two holders *)
   end.
 
-Fixpoint scan (H : list nat) (L : lk) (steps : list sobs) : bool :=
+Fixpoint scan (H : list nat) (L : lk) (T : list nat) (steps : list sobs) : bool :=
   match steps with
   | [] => true
-  | o :: t => step_ok H L o && scan (so_alive o) (so_lock o) t
+  | o :: t => step_ok H L T o && scan (so_alive o) (so_lock o) (so_tmps o) t
   end.
-Definition C19_ok (c : case) : bool := scan [] LkNone (l_steps c).
+Definition C19_ok (c : case) : bool := scan [] LkNone [] (l_steps c).
 Definition failing (cs : list case) : list nat := index_filter C19_ok 0 cs.
 
 (* --replay: first diverging step (model vs processes) and the first step at which the property is false *)
-Fixpoint first_bad (H : list nat) (L : lk) (steps : list sobs) (i : nat) : option nat :=
+Fixpoint first_bad (H : list nat) (L : lk) (T : list nat) (steps : list sobs) (i : nat) : option nat :=
   match steps with
   | [] => None
-  | o :: t => if step_ok H L o then first_bad (so_alive o) (so_lock o) t (S i) else Some i
+  | o :: t => if step_ok H L T o then first_bad (so_alive o) (so_lock o) (so_tmps o) t (S i) else Some i
   end.
-Definition explain (c : case) := (divergence c, first_bad [] LkNone (l_steps c) 0).
+Definition explain (c : case) := (divergence c, first_bad [] LkNone [] (l_steps c) 0).
